@@ -68,6 +68,8 @@ type Exec struct {
 	trustedUsed map[string]bool
 	curFn    string
 	maxInline int
+	frameCtr  int
+	instSuffix string
 	entryEval func(text string) (*Term, error)
 }
 
@@ -114,7 +116,13 @@ func (ex *Exec) setComp(st *State, name string, v *Term) {
 func (ex *Exec) havocAll(st *State, why string) {
 	ex.genCtr++
 	st.gen = ex.genCtr
-	st.heap = map[string]*Term{}
+	keep := map[string]*Term{}
+	for k, v := range st.heap {
+		if strings.HasPrefix(k, "L.") || strings.HasPrefix(k, "IT.") {
+			keep[k] = v
+		}
+	}
+	st.heap = keep
 	nf := ex.f.Fresh("frontier", SInt)
 	ex.assume(st, ex.f.Ge(nf, st.frontier))
 	st.frontier = nf
@@ -144,7 +152,13 @@ func (ex *Exec) havocComps(st *State, names []string) {
 }
 
 func isInterior(p *Term) bool {
-	return p.op == "app" && (strings.HasPrefix(p.name, "faddr.") || strings.HasPrefix(p.name, "iaddr."))
+	return isLocal(p) || p.op == "app" && (strings.HasPrefix(p.name, "faddr.") || strings.HasPrefix(p.name, "iaddr."))
+}
+
+// isLocal: address of a non-escaping local variable (go/ssa Alloc with Heap == false). Such cells are
+// invisible to callees, so they live outside the havocked heap.
+func isLocal(p *Term) bool {
+	return p.op == "var" && strings.HasPrefix(p.name, "local.")
 }
 
 func (ex *Exec) faddr(base *Term, dt, field string) *Term {
@@ -186,6 +200,9 @@ func (ex *Exec) load(st *State, p *Term, t types.Type) *Term {
 		return f.Select(ex.comp(st, "H."+dt+"."+field, ArraySort(SInt, ex.fieldSort(dt, field))), base)
 	}
 	s := ex.tm.SortOf(t)
+	if isLocal(p) {
+		return ex.comp(st, "L."+p.name, s)
+	}
 	if p.op == "app" && strings.HasPrefix(p.name, "iaddr.") {
 		base, idx := p.args[0], p.args[1]
 		if isInterior(base) {
@@ -213,6 +230,9 @@ func (ex *Exec) load(st *State, p *Term, t types.Type) *Term {
 // loadArr loads the whole array (Array Int elem) stored at interior pointer base.
 func (ex *Exec) loadArr(st *State, base *Term, elem Sort) *Term {
 	f := ex.f
+	if isLocal(base) {
+		return ex.comp(st, "L."+base.name, ArraySort(SInt, elem))
+	}
 	if base.op == "app" && strings.HasPrefix(base.name, "faddr.") {
 		dt, field := splitFaddr(base.name)
 		b := base.args[0]
@@ -269,6 +289,10 @@ func (ex *Exec) store(st *State, p *Term, t types.Type, v *Term) {
 		return
 	}
 	s := v.sort
+	if isLocal(p) {
+		ex.setComp(st, "L."+p.name, v)
+		return
+	}
 	if p.op == "app" && strings.HasPrefix(p.name, "iaddr.") {
 		base, idx := p.args[0], p.args[1]
 		if isInterior(base) {
@@ -306,6 +330,10 @@ func (ex *Exec) store(st *State, p *Term, t types.Type, v *Term) {
 
 func (ex *Exec) storeArr(st *State, base *Term, elem Sort, arr *Term) {
 	f := ex.f
+	if isLocal(base) {
+		ex.setComp(st, "L."+base.name, arr)
+		return
+	}
 	if base.op == "app" && strings.HasPrefix(base.name, "faddr.") {
 		dt, field := splitFaddr(base.name)
 		b := base.args[0]
@@ -482,6 +510,11 @@ type Frame struct {
 	results   []*Term
 	exit      *State
 	parent    *Frame
+	id        int
+}
+
+func (fr *Frame) localName(a *ssa.Alloc) string {
+	return fmt.Sprintf("local.%s.%d.%s", sanitize(fr.fn.Name()), fr.id, a.Name())
 }
 
 type loopInfo struct {
@@ -520,7 +553,8 @@ func fnKey(fn *ssa.Function) string {
 }
 
 func (ex *Exec) newFrame(fn *ssa.Function, parent *Frame) *Frame {
-	fr := &Frame{ex: ex, fn: fn, env: map[ssa.Value]*Term{}, tup: map[ssa.Value][]*Term{}, parent: parent}
+	ex.frameCtr++
+	fr := &Frame{ex: ex, fn: fn, env: map[ssa.Value]*Term{}, tup: map[ssa.Value][]*Term{}, parent: parent, id: ex.frameCtr}
 	if parent != nil {
 		fr.depth = parent.depth + 1
 	}
@@ -916,6 +950,11 @@ func shortFnName(fn *ssa.Function) string {
 }
 
 func (ex *Exec) addOblig(o *Obligation) {
+	if ex.instSuffix != "" {
+		if i := strings.LastIndex(o.Name, "/"); i >= 0 {
+			o.Name = o.Name[:i] + ex.instSuffix + o.Name[i:]
+		}
+	}
 	o.NAssume = len(ex.assumes)
 	o.Inputs = ex.inputs
 	ex.obligs = append(ex.obligs, o)
@@ -1104,8 +1143,14 @@ func (fr *Frame) step(st *State, in ssa.Instruction) bool {
 	case *ssa.DebugRef:
 		return true
 	case *ssa.Alloc:
-		r := ex.alloc(st)
-		ex.assume(st, f.Gt(r, f.Int(0)))
+		var r *Term
+		if !x.Heap {
+			r = f.Var(fr.localName(x), SInt)
+			ex.assumes = append(ex.assumes, f.Gt(r, f.Int(0)))
+		} else {
+			r = ex.alloc(st)
+			ex.assume(st, f.Gt(r, f.Int(0)))
+		}
 		et := x.Type().Underlying().(*types.Pointer).Elem()
 		ex.store(st, r, et, ex.tm.Zero(et))
 		fr.env[x] = r
